@@ -1,14 +1,16 @@
 (* SafelogRun.v — line-protocol adapter for the safelog model (harness glue, executable).
      scrub x<hex>            -> hex of (scrub full_patterns b), "-" when empty         (repaired algorithm, generated patterns)
      scrub0 x<hex>           -> the pinned algorithm on the frozen pinned patterns
-     write <x..,x..>         -> o=<hex of all blocks> nl=<every block ends with NL>   (repaired writer)
+     write <x..,x..>         -> o=<hex of all blocks> nl=<every block ends with NL>   (repaired writer; executed as
+                                run_scratch of Model/SafelogOwn.v: the chunks go through one scratch array that is overwritten
+                                after every call, as in the Go driver; = run_writes by C07_write_scratch_delivery)
      write0 <x..,x..>        -> same for the pinned writer
      conc <x..,x..;x..;...>  -> writers one after the other; the lines of the output sorted
      spec x<hex>             -> 1 iff the word is in the language of addr_spec (executable matcher)
      evstr <offer|broker|failed> x<hex> -> hex of event_string: the String() of the event carrying an error with this text
      inclcex -               -> "included" or cex=<hex>: addr_spec ⊆ group 1 of the generated full pattern *)
 From Coq Require Import List NArith Bool Arith String.
-From Snow Require Import Lib.Wire Model.Regex Model.RegexIncl Model.Scrub Model.SafelogPinned Gen.SafelogPatterns.
+From Snow Require Import Lib.Wire Model.Regex Model.RegexIncl Model.Scrub Model.SafelogPinned Model.SafelogOwn Gen.SafelogPatterns.
 Import ListNotations.
 Open Scope N_scope.
 
@@ -61,7 +63,7 @@ Definition run (args : list bytes) : bytes :=
         | None => ERR_BADCASE end
       else if beq op (bs "write") then
         match list_parse payload_parse a with
-        | Some ws => out_print (fst (run_writes (write (scrub full_patterns)) [] ws))
+        | Some ws => out_print (fst (run_scratch (scrub full_patterns) ws))
         | None => ERR_BADCASE end
       else if beq op (bs "write0") then
         match list_parse payload_parse a with
